@@ -90,11 +90,49 @@ func mkTarget(s string) cc.MesosCommandTarget {
 }
 
 var (
-	allTargets = []cc.MesosCommandTarget{mkTarget("0"), mkTarget("1")}
+	allTargets = manyTargets(70)
 	strangerT  = mkTarget("stranger")
 )
 
 const strangerIdx = 99
+
+func manyTargets(n int) (out []cc.MesosCommandTarget) {
+	for i := 0; i < n; i++ {
+		out = append(out, mkTarget(fmt.Sprint(i)))
+	}
+	return
+}
+
+// patterns: behaviour assignments of a command with many targets (position, number of targets)
+type pattern struct {
+	name string
+	f    func(pos, n int) beh
+}
+
+var widePatterns = []pattern{
+	{"all-reply", func(pos, n int) beh { return bReply }},
+	{"all-silent", func(pos, n int) beh { return bSilent }},
+	{"all-silent-but-the-last", func(pos, n int) beh {
+		if pos == n-1 {
+			return bReply
+		}
+		return bSilent
+	}},
+	{"all-silent-but-the-first", func(pos, n int) beh {
+		if pos == 0 {
+			return bErrReply
+		}
+		return bSilent
+	}},
+	{"every-other-silent", func(pos, n int) beh {
+		if pos%2 == 0 {
+			return bSilent
+		}
+		return bReply
+	}},
+	{"all-late", func(pos, n int) beh { return bLate }},
+	{"sendfail-silent-reply-in-turn", func(pos, n int) beh { return []beh{bSendFail, bSilent, bReply}[pos%3] }},
+}
 
 // ---------------------------------------------------------------- records
 
@@ -140,12 +178,16 @@ type params struct {
 	// created with (90 s) instead of the 10 s / 7 s the other scenarios set
 	kinds          []string
 	defaultTimeout bool
-	q, t           vrt.Bounds
+	// patterns: the behaviours are not chosen per target but by one of these assignment patterns, and the
+	// replies arrive in target order (commands with many targets)
+	patterns []pattern
+	q, t     vrt.Bounds
 	doc            string
 }
 
 type world struct {
 	p       params
+	patName []string
 	ids     []xid.ID
 	assign  [][]beh // [cmd][position in targets[cmd]]
 	sends   []*sendRec
@@ -368,11 +410,29 @@ func scenario(p params) *vrt.Scenario {
 		w.assign = make([][]beh, n)
 		for c := 0; c < n; c++ {
 			w.assign[c] = make([]beh, len(p.targets[c]))
+			if p.patterns != nil {
+				pt := p.patterns[vrt.ChooseFree(len(p.patterns), fmt.Sprintf("pattern c%d", c))]
+				w.patName = append(w.patName, pt.name)
+				for pos := range p.targets[c] {
+					w.assign[c][pos] = pt.f(pos, len(p.targets[c]))
+				}
+				continue
+			}
 			for pos := range p.targets[c] {
 				w.assign[c][pos] = p.alphabet[vrt.ChooseFree(len(p.alphabet), fmt.Sprintf("behaviour c%d/t%d", c, p.targets[c][pos]))]
 			}
 		}
-		if p.direct {
+		if p.patterns != nil {
+			for c := 0; c < n; c++ {
+				var seq []int
+				for pos, ti := range p.targets[c] {
+					for k := 0; k < inTime(w.assign[c][pos]); k++ {
+						seq = append(seq, ti)
+					}
+				}
+				w.order = append(w.order, seq)
+			}
+		} else if p.direct {
 			cnt := map[int]int{}
 			for c := 0; c < n; c++ {
 				cnt[c] = inTime(w.assign[c][0])
@@ -388,7 +448,11 @@ func scenario(p params) *vrt.Scenario {
 			}
 		}
 		w.cursor = make([]int, len(w.order))
-		vrt.Logf("assign %s arrival %v", behString(p, w.assign), w.order)
+		if p.patterns != nil {
+			vrt.Logf("patterns %v over %d targets", w.patName, len(p.targets[0]))
+		} else {
+			vrt.Logf("assign %s arrival %v", behString(p, w.assign), w.order)
+		}
 
 		w.servent = cc.NewServent(w.send)
 		cmds := make([]cc.MesosCommand, n)
@@ -790,6 +854,13 @@ func (w *world) dummyCmd(c int) cc.MesosCommand {
 	return &cc.MesosCommandBase{Name: "direct", Id: w.ids[c]}
 }
 
+func upTo(n int) (out []int) {
+	for i := 0; i < n; i++ {
+		out = append(out, i)
+	}
+	return
+}
+
 func main() {
 	T0, T01 := []int{0}, []int{0, 1}
 	vrt.Main([]*vrt.Scenario{
@@ -817,6 +888,12 @@ func main() {
 		scenario(params{name: "mix2x1", targets: [][]int{T0, T0}, alphabet: alphaCore, kinds: []string{"transition", "hook"},
 			q: vrt.Bounds{Dev: 1, Seconds: 120}, t: vrt.Bounds{Dev: 3, Seconds: 900},
 			doc: "queue, a transition command and a TriggerHook command to the same target, 8^2 assignments"}),
+		scenario(params{name: "wide1x70", targets: [][]int{upTo(70)}, patterns: widePatterns,
+			q: vrt.Bounds{Dev: 0, Seconds: 60}, t: vrt.Bounds{Dev: 1, Seconds: 600},
+			doc: "queue, 1 command x 70 targets, 7 assignment patterns (all answer / all silent / all but one silent / alternating / all late / send failures mixed in), replies in target order"}),
+		scenario(params{name: "wide2x70", targets: [][]int{upTo(70), upTo(70)}, patterns: widePatterns,
+			q: vrt.Bounds{Dev: 0, Seconds: 60}, t: vrt.Bounds{Dev: 0, Seconds: 600},
+			doc: "queue, 2 concurrent commands x the same 70 targets, 7 x 7 assignment patterns"}),
 		scenario(params{name: "race1x1", targets: [][]int{T0}, alphabet: alphaRace, timerRace: true,
 			q: vrt.Bounds{Dev: 3, Seconds: 60}, t: vrt.Bounds{Dev: 4, Seconds: 600},
 			doc: "queue, 1x1, timers may fire at any scheduling point (reply racing the timeout); no timing clauses"}),
